@@ -127,6 +127,9 @@ def classify(f, prog, name):
     if f["kind"] in ("value", "trace") and any(t == "Zst" for _, t in entry.params[:-1]):
         # a zero-sized registered type in front of another parameter of the entry function
         return "zero-sized-registered-argument-shifts-later-arguments"
+    if f["kind"] == "ledger" and "still live at return" in f.get("detail", "") and name.startswith("f6_match_guard_returns"):
+        # the bindings of a match arm when the guard of that arm leaves the function
+        return "match-binding-leaks-when-guard-returns"
     if f["kind"] == "ledger" and "still live at return" in f.get("detail", "") and name.startswith("f6_later_arg_returns"):
         # an already evaluated call argument when a later argument of the same call leaves the function
         return "call-argument-leaks-when-later-argument-returns"
